@@ -367,11 +367,19 @@ func runSequence(id caseID) {
 		if st.carrier == carrierDirect {
 			parts = append(parts, &partition{Mode: "whole"})
 		}
-		// 1-byte reads for everything but the rare huge streams (those get them 1 time in 8)
-		if n <= 1<<17 || r.Intn(8) == 0 {
+		// 1-byte reads: always for streams of moderate size, 1 time in 8 for the rare huge ones.
+		// The base64 stream reader allocates 1 KiB per source read, so on that carrier the
+		// partitions with very many reads are kept for the smaller streams (1 in 16 otherwise).
+		b64c := st.carrier == carrierBase64
+		switch {
+		case !b64c && (n <= 1<<15 || r.Intn(8) == 0), b64c && (n <= 3000 || (n <= 1<<16 && r.Intn(16) == 0)):
 			parts = append(parts, &partition{Mode: "1-byte", ones: true})
 		}
-		parts = append(parts, &partition{Mode: "prng", cuts: prngCuts(r, n, r.Intn(4))})
+		style := r.Intn(4)
+		if b64c && n > 8192 && style == 0 {
+			style = 1 + r.Intn(3)
+		}
+		parts = append(parts, &partition{Mode: "prng", cuts: prngCuts(r, n, style)})
 		if r.Intn(2) == 0 {
 			parts = append(parts, &partition{Mode: "structural-all", cuts: st.structs})
 		} else {
